@@ -134,6 +134,73 @@ def check_pipeline(rep, cfgs, want, tier, crash_key=None):
     return total
 
 
+# ------------------------------------------------------------------------------------------------ C09 / C10: WhenSeq.tla
+
+ALL_STRATS_SEQ = ("all_none", "all_ff", "tuple_none", "tuple_ff", "join_none", "join_ff")
+ANY_STRATS_SEQ = ("any_none", "any_ff", "any_lf")
+
+
+def check_whenseq(rep, tier, strats, prop):
+    """sequential completion histories of the combinators: TLC prints the prescribed output, the harness executes them"""
+    exe = core.build_harness()
+    wd = core.workdir("WhenSeq")
+    cfg = "WhenSeq_%s.cfg" % tier
+    progs, r = tlc_programs(rep, wd, "WhenSeq.tla", cfg, tag="WPROG", what="combinator histories (%s)" % cfg)
+    for inv in r.violated:
+        rep.violation("%s/model/WhenSeq" % inv, "TLC: %s violated in WhenSeq.tla (%s)" % (inv, cfg), {"tlc_cfg": cfg, "tlc_trace": r.out[-3000:]})
+    progs = [p for p in progs if p["prog"]["strat"] in strats]
+    if not progs:
+        raise MachineryError("TLC printed no combinator histories for %s" % cfg)
+
+    def line(pr):
+        return "%s %d %s %s %d %s %s" % (pr["strat"], pr["n"], "".join(pr["outs"]), "".join(str(x) for x in pr["order"]), pr["pre"],
+                                         pr["form"], pr["kind"])
+    # one process per strategy x form x kind cell, so that a crash names its cell and the other cells still run
+    cells = {}
+    for p in progs:
+        pr = p["prog"]
+        cells.setdefault((pr["strat"], pr["form"], pr["kind"], pr["n"]), []).append(p)
+    bad = {}
+    ran = 0
+    for (strat, form, kind, n), lst in sorted(cells.items()):
+        rc, out, err = core.sh([exe, "when"], stdin="\n".join(line(p["prog"]) for p in lst) + "\n", timeout=600)
+        got = {}
+        for ln in out.splitlines():
+            if " " in ln:
+                i, rest = ln.split(" ", 1)
+                try:
+                    got[int(i)] = dict(kv.split("=", 1) for kv in rest.split(";") if "=" in kv)
+                except ValueError:
+                    pass
+        ran += len(got)
+        for i, p in enumerate(lst):
+            g = got.get(i)
+            pr = p["prog"]
+            if g is None:
+                if i == len(got):  # the program the process died in
+                    key = "crash/whenseq/%s/%s/%s/n=%d" % (strat, form, kind, n)
+                    bad.setdefault(key, []).append((p, None, "the process died (exit %s) while executing this history: %s" % (
+                        rc, err.strip().splitlines()[-1][:200] if err.strip() else "")))
+                continue
+            if g.get("out") != p["expected"]:
+                bad.setdefault("output/whenseq/%s/%s/%s/n=%d" % (strat, form, kind, n), []).append(
+                    (p, g, "output %s, expected %s" % (g.get("out"), p["expected"])))
+            if g.get("live") != "0" or g.get("leak") != "0":
+                bad.setdefault("released/whenseq/%s/%s/%s/n=%d" % (strat, form, kind, n), []).append(
+                    (p, g, "%s payloads alive, allocation balance %s after everything was dropped" % (g.get("live"), g.get("leak"))))
+    for key, lst in sorted(bad.items()):
+        p, g, msg = lst[0]
+        rep.violation(key, "%s (%d histories of this cell; first: %s)" % (msg, len(lst), line(p["prog"])),
+                      {"kind": "whenseq", "program": p["prog"], "line": line(p["prog"]), "expected": p["expected"], "got": g})
+    rep.executions += len(progs)
+    rep.traces += ran
+    rep.extra["combinator_histories"] = rep.extra.get("combinator_histories", 0) + len(progs)
+    if progs and len(rep.samples) < 6:
+        p = progs[len(progs) // 2]
+        rep.samples.append({"kind": "combinator history enumerated by TLC and executed on the real API", "program": line(p["prog"]),
+                            "expected": p["expected"]})
+
+
 # ------------------------------------------------------------------------------------------------ C19: Atomic.tla
 
 ATOMIC_KINDS = [
